@@ -31,6 +31,7 @@ TOp == /\ Ev.op \in {"append", "insert", "delidx", "delkey", "setitem", "setvalu
 TProbe == /\ Ev.op = "probe" /\ UNCHANGED <<items, xf>>
           /\ Chk("C15.ProbeFrame", Logged = items)
           /\ \A i \in DOMAIN Ev.keys   : Chk("C15.LookupsAgree", S!ProbeKeyOK(xf, items, Ev.keys[i]))
+          /\ ("ckeys" \in DOMAIN Ev) => \A i \in DOMAIN Ev.ckeys : Chk("C15.LookupsAgree.copy", S!ProbeKeyOK(xf, items, Ev.ckeys[i]))
           /\ \A i \in DOMAIN Ev.keys   : Chk("C13.LASFileAccess", S!ProbeLasOK(xf, items, Ev.keys[i]))
           /\ \A i \in DOMAIN Ev.ints   : Chk("C15.IntIsPosition", S!ProbeIntOK(items, Ev.ints[i]))
           /\ \A i \in DOMAIN Ev.slices : Chk("C15.SliceIsList", S!ProbeSliceOK(items, Ev.slices[i]))
